@@ -88,19 +88,30 @@ def generate(seed, idx, tier):
         ops.append(o)
     batch += 1
     f = gen_frame_spec(rng, shape, batch)
-    app = {'op': 'append', 'frame': f, 'entry': rng.choice(('write', 'wrg'))}
+    app = {'op': 'append', 'frame': f,
+           'entry': rng.choice(('write', 'write', 'wrg', 'wrg', 'wrg-iter'))}
     app.update(gen_wopts(rng, f['nrows'], has_cat, knobs))
+    if app['entry'] == 'wrg-iter':
+        app['cuts'] = [rng.random() for _ in range(rng.choice((0, 1, 2)))]
+    if app['entry'] != 'write' and rng.random() < 0.3:
+        # append + renumbering of the part files: new parts first, then the
+        # renames, the summary last; the window the statement speaks about
+        # ends where the renames begin
+        app['sort_pnames'] = True
     quick = tier == 'quick'
     return {
         'prop': PROP, 'seed': seed, 'idx': idx, 'tier': tier,
         'knobs': knobs, 'shape': shape, 'prefix': ops, 'append': app,
         'profile': rng.choice(('posix', 'objstore')),
         'both_profiles': not quick,
-        'kinds': ['eio', 'enospc_partial', 'eio_close', 'crash', 'eio_read',
-                  'interrupt'],
+        'kinds': ['eio', 'enospc_partial', 'eio_partial', 'eio_close',
+                  'crash', 'eio_read', 'interrupt'],
         'double_frac': 0.34,
         'n_resolutions': 1 if quick else 3,
         'after_meta': 'sample',
+        # I/O handed to the library as plain functions (not bound methods of
+        # a filesystem object) in a quarter of the scenarios
+        'plain_io': rng.random() < 0.25,
     }
 
 
@@ -192,12 +203,29 @@ def applicable(op, kinds):
         elif kind == 'enospc_partial':
             if op != 'close':
                 out.append(kind)
+        elif kind == 'eio_partial':
+            if op == 'write':
+                out.append(kind)
         elif kind == 'eio':
             if op != 'close':
                 out.append(kind)
         else:
             out.append(kind)
     return out
+
+
+def _drop_late_renames(fs, renum):
+    """Monitor hits minus the renames of a requested renumbering that come
+    after every part-file call of the operation (parts first, then renames)."""
+    if not renum:
+        return fs.hits
+    last = max([e[0] for e in fs.log
+                if e[1] != 'rename' and (e[1] == 'mkdirs' or
+                                         e[2].endswith(('.parquet', '.parq')))
+                and not e[2].endswith('.tmp')] or [0])
+    return [h for h in fs.hits
+            if not (h[0] in ('rename-protected', 'rename-clobber')
+                    and h[3] > last)]
 
 
 def run_append(fs, case, parts, df):
@@ -258,6 +286,7 @@ def execute(case):
 
         # ---- fault-free reference run
         ref = D.clone_fs(snap, case['profile'])
+        ref.plain_io = bool(case.get('plain_io'))
         ref.protected = set(protected)
         ref.begin_op(track_reads=True)
         try:
@@ -277,11 +306,19 @@ def execute(case):
                       'fault-free append never opened _metadata')
             res['digest'] = 'nometa'
             return res
+        renum = bool(case['append'].get('sort_pnames'))
+        renames = [e[3]['k'] for e in trace if e[1] == 'rename']
+        if renum and renames:
+            # renumbering on request: it belongs to the commit phase
+            m = min(m, renames[0])
+            bump(probes, 'append_with_renumbering')
         # data-file calls: part files and their directories (a backup copy
         # of the summary or its removal is not one)
         last_data = max([e[3]['k'] for e in trace
                          if e[1] == 'mkdirs'
-                         or e[2].endswith(('.parquet', '.parq'))] or [0])
+                         or (e[1] != 'rename'
+                             and e[2].endswith(('.parquet', '.parq')))]
+                        or [0])
         if last_data > m:
             # "parts first, summary last": once the summary is being
             # rewritten while part files are still to come, an append that is
@@ -292,6 +329,7 @@ def execute(case):
                       'fault-free append opened _metadata at call %d but '
                       'still wrote data files afterwards (call %d: %s %s @%s)'
                       % (m, last_data, ev[1], ev[2], ev[4]))
+        ref.hits = _drop_late_renames(ref, renum)
         if ref.hits:
             violation('C19/protected-touched:%s@%s' % (ref.hits[0][0],
                                                        ref.hits[0][2]),
@@ -392,6 +430,7 @@ def execute(case):
             isread = 'rk' in fl
             k = ('r', fl['rk']) if isread else fl['k']
             fs = D.clone_fs(snap, fl['profile'])
+            fs.plain_io = bool(case.get('plain_io'))
             fs.protected = set(protected)
             drng = prng.stream(fl['dur'], 'dur')
             fs.sync_point()
@@ -478,6 +517,7 @@ def execute(case):
                 kind, k, ev[1], ev[2], ev[4],
                 ' + second eio' if len(fired) > 1 else '')
             # invariant 3: never touch an existing data file
+            fs.hits = _drop_late_renames(fs, renum)
             if fs.hits:
                 hit = fs.hits[0]
                 violation('C19/protected-touched:%s@%s' % (hit[0], hit[2]),
